@@ -12,9 +12,10 @@ FUNCS = ["litex.soc.interconnect.axi.axi_lite.AXILiteTimeout", "litex.soc.interc
 
 
 class AxilTimeoutIC(c08.AxilIC):
-    def __init__(self, M, S, mapname, cycles):
+    def __init__(self, M, S, mapname, cycles, std="lite"):
         assert S <= 2
-        c08.AxilIC.__init__(self, "shared", M, S, MAPS[mapname], timeout=cycles)
+        c08.AxilIC.__init__(self, "shared", M, S, MAPS[mapname], timeout=cycles, std=std)
+        full = std == "full"
         ms, ss = self.ms, self.ss
         to = self.dut.timeout
         gw = self.dut.arbiter.rr_write.grant
@@ -39,7 +40,7 @@ class AxilTimeoutIC(c08.AxilIC):
         b3 = 0
         for m in ms:
             b3 = b3 | (hs(m.b) & ~any_([hs(s.b) for s in ss]) & (m.b.resp != RESP_SLVERR))
-            b3 = b3 | (hs(m.r) & ~any_([hs(s.r) for s in ss]) & ((m.r.resp != RESP_SLVERR) | (m.r.data != dmax)))
+            b3 = b3 | (hs(m.r) & ~any_([hs(s.r) for s in ss]) & ((m.r.resp != RESP_SLVERR) | (m.r.data != dmax) | ((m.r.last != 1) if full else 0)))
         sg = Signal(name_override="bad_synth_response_is_slverr")
         self.comb += sg.eq(b3)
         # response phase: an accepted request is answered (by the slave or by the time-out) within cycles+4 cycles
@@ -70,11 +71,28 @@ class AxilTimeoutIC(c08.AxilIC):
         # tags: with S<=2 slave resp tags (0,1) never collide with SLVERR
 
 
-def build(M, S, mapname, cycles, K):
-    top = AxilTimeoutIC(M, S, mapname, cycles)
-    return H("axil_timeout%d_%dx%d_%s" % (cycles, M, S, mapname), top, top.free, rigid=[top.mi, top.N], assume=top.assume, bad=top.bads,
-             witness=dict(timeout_slverr_then_real_answer=top.w_to), K=K, funcs=FUNCS, cfg=dict(bus="axi-lite", masters=M, slaves=S, map=mapname, timeout=cycles),
-             show=top.showl, vcycles=30)
+FUNCS_FULL = ["litex.soc.interconnect.axi.axi_full.AXITimeout", "litex.soc.interconnect.axi.axi_full.AXIInterconnectShared", "litex.soc.interconnect.axi.axi_full.AXIArbiter",
+              "litex.soc.interconnect.axi.axi_full.AXIDecoder", "litex.gen.genlib.misc.WaitTimer"]
+
+
+def build(M, S, mapname, cycles, K, std="lite"):
+    top = AxilTimeoutIC(M, S, mapname, cycles, std)
+    full = std == "full"
+    # a response (forced ones included) never precedes the complete request it answers: B after AW and the whole W burst, R after AR
+    top.bads["response_after_complete_request"] = c08_early(top)
+    return H("%s_timeout%d_%dx%d_%s" % ("axi" if full else "axil", cycles, M, S, mapname), top, top.free, rigid=[top.mi, top.N] + ([top.L] if full else []), assume=top.assume, bad=top.bads,
+             witness=dict(timeout_slverr_then_real_answer=top.w_to), K=K, funcs=FUNCS_FULL if full else FUNCS,
+             cfg=dict(bus="axi4" if full else "axi-lite", masters=M, slaves=S, map=mapname, timeout=cycles), show=top.showl, vcycles=30)
+
+
+def c08_early(top):
+    bad = 0
+    for m, e in zip(top.ms, top.menv):
+        n = e.n
+        bad = bad | (hs(m.b) & ~((n["b"] < n["aw"]) & (n["b"] < n["w"]))) | (hs(m.r) & ~(n["r"] < n["ar"]))
+    sg = Signal(name_override="bad_forced_response_early")
+    top.comb += sg.eq(bad)
+    return sg
 
 
 def jobs(tier):
@@ -82,4 +100,7 @@ def jobs(tier):
     cfgs = [(1, 2, "hole", 2), (2, 2, "gapped", 3)]
     if tier == "thorough":
         cfgs += [(2, 2, "hole", 1), (1, 2, "adjacent", 5), (2, 1, "hole", 2)]
-    return [Job("axil_timeout%d_%dx%d_%s" % (c, m, s, mp), build, dict(M=m, S=s, mapname=mp, cycles=c, K=c + extra), cost=10 * m, timeout_s=3000) for (m, s, mp, c) in cfgs]
+    js = [Job("axil_timeout%d_%dx%d_%s" % (c, m, s, mp), build, dict(M=m, S=s, mapname=mp, cycles=c, K=c + extra), cost=10 * m, timeout_s=3000) for (m, s, mp, c) in cfgs]
+    fcfgs = [(1, 2, "hole", 2)] + ([(2, 2, "gapped", 3), (2, 1, "hole", 1)] if tier == "thorough" else [])
+    js += [Job("axi_timeout%d_%dx%d_%s" % (c, m, s, mp), build, dict(M=m, S=s, mapname=mp, cycles=c, K=c + extra + 2, std="full"), cost=30 * m, timeout_s=3000) for (m, s, mp, c) in fcfgs]
+    return js
